@@ -809,11 +809,32 @@ def check_save_load(ctx: Ctx, tier: str):
             builders.append((f"DilResNet/{tag}/group_norm", mk(models.DilResNet, eq, num_blocks=1,
                                                                use_group_norm=True), call))
 
+    # models whose saved instance differs from the (same-structured) template in NON-array leaves too:
+    # a normalisation epsilon, and the inference / always_average switches of a wrapper
+    # vectors only: for k=0 ml.GroupNorm delegates to eqx.nn.GroupNorm whose eps is a STATIC field, i.e.
+    # part of the structure (a template with another static eps is not "same-structured")
+    gn_sig = geom.Signature((((1, 0), 2),))
+    x_vec = geom.MultiImage({(1, 0): random.normal(random.fold_in(xk, 2), (2, N, N, 2))}, D)
+
+    def gn_build(key, saved=False):
+        return ml.GroupNorm(gn_sig, D, 1, eps=(1e-2 if saved else 1e-5))
+
+    def ga_build(key, saved=False):
+        inner = models.ResNet(D, in_sig, out_sig, depth=2, num_blocks=1, num_conv=1, conv_filters=filt,
+                              equivariant=True, key=key)
+        return models.GroupAverage(inner, ops[:4], always_average=False, inference=saved)
+
+    builders.append(("GroupNorm/eps-differs-from-template", gn_build, lambda mdl, x: mdl(x_vec)))
+    builders.append(("GroupAverage/inference-flag-differs-from-template", ga_build, call))
+
     for name, build, run_model in builders:
         t0 = time.time()
         k1, k2 = random.split(random.PRNGKey(ctx.seed * 7 + 3))
         try:
-            m1, m2 = build(k1), build(k2)
+            if build in (gn_build, ga_build):
+                m1, m2 = build(k1, saved=True), build(k2, saved=False)
+            else:
+                m1, m2 = build(k1), build(k2)
             y1 = run_model(m1, x)
             y2 = run_model(m2, x)
         except Exception as e:
